@@ -37,9 +37,13 @@ scoped_thread_local! {
 //
 // It is expected that if the `ExecutionState` exists, then this will exist, and any usage of this happens through the
 // `ExecutionState`, or at a point where it is known that the `ExecutionState` must exist (eg. when serializing on a panic).
+#[cfg(not(feature = "verif-hooks"))]
 thread_local! {
     static CURRENT_SCHEDULE: CurrentSchedule = CurrentSchedule::default();
 }
+#[cfg(feature = "verif-hooks")]
+static CURRENT_SCHEDULE: crate::verif_support::VerifLocal<CurrentSchedule> =
+    crate::verif_support::VerifLocal::new(<CurrentSchedule as Default>::default);
 
 #[derive(Debug, Default)]
 pub struct CurrentSchedule {
@@ -72,15 +76,25 @@ impl CurrentSchedule {
     }
 }
 
+#[cfg(not(feature = "verif-hooks"))]
 thread_local! {
     #[allow(clippy::complexity)]
     #[allow(deprecated)]
     pub static TASK_ID_TO_TAGS: RefCell<HashMap<TaskId, Arc<dyn Tag>>> = RefCell::new(HashMap::new());
 }
+#[cfg(feature = "verif-hooks")]
+#[allow(clippy::complexity)]
+#[allow(deprecated)]
+pub static TASK_ID_TO_TAGS: crate::verif_support::VerifLocal<RefCell<HashMap<TaskId, Arc<dyn Tag>>>> =
+    crate::verif_support::VerifLocal::new(|| RefCell::new(HashMap::new()));
 
+#[cfg(not(feature = "verif-hooks"))]
 thread_local! {
     pub static LABELS: RefCell<HashMap<TaskId, Labels>> = RefCell::new(HashMap::new());
 }
+#[cfg(feature = "verif-hooks")]
+pub static LABELS: crate::verif_support::VerifLocal<RefCell<HashMap<TaskId, Labels>>> =
+    crate::verif_support::VerifLocal::new(|| RefCell::new(HashMap::new()));
 
 /// An `Execution` encapsulates a single run of a function under test against a chosen scheduler.
 /// Its only useful method is `Execution::run`, which executes the function to completion.
@@ -280,7 +294,13 @@ impl Execution {
                 Some(continuation) => {
                     Execution::enter_task_span();
 
+                    #[cfg(not(feature = "verif-hooks"))]
                     let result = panic::catch_unwind(panic::AssertUnwindSafe(|| continuation.borrow_mut().resume()));
+                    #[cfg(feature = "verif-hooks")]
+                    let result: std::thread::Result<bool> = {
+                        let _ = &continuation;
+                        Ok(crate::verif_support::resume(ExecutionState::me().into()))
+                    };
 
                     Execution::exit_task_span();
 
@@ -318,7 +338,10 @@ impl Execution {
 pub struct ExecutionState {
     pub config: Config,
     // invariant: tasks are never removed from this list
+    #[cfg(not(feature = "verif-hooks"))]
     tasks: SmallVec<[Task; DEFAULT_INLINE_TASKS]>,
+    #[cfg(feature = "verif-hooks")]
+    tasks: Vec<Task>,
     // invariant: if this transitions to Stopped or Finished, it can never change again
     current_task: ScheduledTask,
     // the task the scheduler has chosen to run next
@@ -401,7 +424,10 @@ impl ExecutionState {
     fn new(config: Config, scheduler: Rc<RefCell<dyn Scheduler>>) -> Self {
         Self {
             config,
+            #[cfg(not(feature = "verif-hooks"))]
             tasks: SmallVec::new(),
+            #[cfg(feature = "verif-hooks")]
+            tasks: Vec::new(),
             current_task: ScheduledTask::None,
             next_task: ScheduledTask::None,
             has_yielded: false,
@@ -1047,5 +1073,148 @@ impl ExecutionState {
 impl Drop for ExecutionState {
     fn drop(&mut self) {
         assert!(self.has_cleaned_up || std::thread::panicking());
+    }
+}
+
+/// Outcome of one scheduling decision, as seen by the verification harnesses.
+#[cfg(feature = "verif-hooks")]
+#[derive(Debug, PartialEq, Eq, Clone, Copy)]
+pub enum VerifScheduled {
+    None,
+    Some(TaskId),
+    Stopped,
+    Finished,
+}
+
+/// How an execution driven by a verification harness ended.
+#[cfg(feature = "verif-hooks")]
+#[derive(Debug, PartialEq, Eq, Clone, Copy)]
+pub enum VerifOutcome {
+    Ok,
+    TaskFailure,
+    SchedulingError,
+    Deadlock,
+    StepBoundExceeded,
+    TaskPanicEarlyReturn,
+}
+
+#[cfg(feature = "verif-hooks")]
+impl From<ScheduledTask> for VerifScheduled {
+    fn from(s: ScheduledTask) -> Self {
+        match s {
+            ScheduledTask::None => VerifScheduled::None,
+            ScheduledTask::Some(t) => VerifScheduled::Some(t),
+            ScheduledTask::Stopped => VerifScheduled::Stopped,
+            ScheduledTask::Finished => VerifScheduled::Finished,
+        }
+    }
+}
+
+#[cfg(feature = "verif-hooks")]
+impl From<Result<(), StepError>> for VerifOutcome {
+    fn from(r: Result<(), StepError>) -> Self {
+        match r {
+            Ok(()) => VerifOutcome::Ok,
+            Err(StepError::TaskFailure(_)) => VerifOutcome::TaskFailure,
+            Err(StepError::SchedulingError) => VerifOutcome::SchedulingError,
+            Err(StepError::Deadlock) => VerifOutcome::Deadlock,
+            Err(StepError::StepBoundExceeded) => VerifOutcome::StepBoundExceeded,
+            Err(StepError::TaskPanicEarlyReturn) => VerifOutcome::TaskPanicEarlyReturn,
+        }
+    }
+}
+
+/// Thin public wrappers over the private engine functions, for the out-of-tree verification
+/// harnesses. None of these contains logic of its own.
+#[cfg(feature = "verif-hooks")]
+impl ExecutionState {
+    pub fn verif_new(config: Config, scheduler: Rc<RefCell<dyn Scheduler>>) -> Self {
+        Self::new(config, scheduler)
+    }
+
+    /// Make `state` the current execution state for the duration of `f`.
+    pub fn verif_enter<R>(state: &RefCell<ExecutionState>, f: impl FnOnce() -> R) -> R {
+        EXECUTION_STATE.set(state, f)
+    }
+
+    /// Initialise the recorded schedule, as `Execution::run` does.
+    pub fn verif_init_schedule(schedule: Schedule) {
+        CurrentSchedule::init(schedule)
+    }
+
+    /// Register a task that has no coroutine. The clock is derived exactly as `spawn_thread` does
+    /// (parent's incremented clock, extended) when there is a current task, and as
+    /// `spawn_main_thread` does otherwise.
+    pub fn verif_add_stub_task(&mut self) -> TaskId {
+        let task_id = TaskId(self.tasks.len());
+        let parent = self.current_task.id();
+        let clock = if parent.is_some() {
+            let clock = self.increment_clock_mut();
+            clock.extend(task_id);
+            clock.clone()
+        } else {
+            let mut clock = VectorClock::new();
+            clock.extend(task_id);
+            clock
+        };
+        let task = Task::verif_stub(task_id, clock, parent);
+        self.add_task(task);
+        task_id
+    }
+
+    pub fn verif_schedule(&mut self) -> VerifOutcome {
+        self.schedule().into()
+    }
+
+    pub fn verif_advance_to_next_task(&mut self) {
+        self.advance_to_next_task()
+    }
+
+    pub fn verif_finish_current_task(&mut self) {
+        self.finish_current_task()
+    }
+
+    pub fn verif_finish_task(&mut self, task_id: TaskId) {
+        self.finish_task(task_id)
+    }
+
+    pub fn verif_current_task(&self) -> VerifScheduled {
+        self.current_task.into()
+    }
+
+    pub fn verif_next_task(&self) -> VerifScheduled {
+        self.next_task.into()
+    }
+
+    /// Make `task_id` the running task without consulting the scheduler (for harnesses that drive
+    /// primitives directly and choose the acting task themselves).
+    pub fn verif_set_current_task(&mut self, task_id: TaskId) {
+        self.current_task = ScheduledTask::Some(task_id);
+        self.next_task = ScheduledTask::None;
+    }
+
+    pub fn verif_num_tasks(&self) -> usize {
+        self.tasks.len()
+    }
+
+    pub fn verif_has_yielded(&self) -> bool {
+        self.has_yielded
+    }
+
+    pub fn verif_is_step_bound_exceeded(&self, max_steps: usize) -> bool {
+        self.is_step_bound_exceeded(max_steps)
+    }
+
+    pub fn verif_cleanup() {
+        Self::cleanup()
+    }
+}
+
+#[cfg(feature = "verif-hooks")]
+impl Execution {
+    /// Run the real execution loop; task steps are served by the resume callback registered with
+    /// `verif_support::set_resume_callback`.
+    pub fn verif_run_to_completion(&mut self, immediately_return_on_panic: bool) -> VerifOutcome {
+        self.run_to_completion(immediately_return_on_panic).into()
     }
 }
